@@ -1,490 +1,24 @@
 package c10
 
 import (
-	"context"
-	"fmt"
-	"os"
-	"sort"
-	"strings"
-	"sync"
 	"testing"
 	"time"
 
-	"github.com/twmb/franz-go/pkg/kadm"
-	"github.com/twmb/franz-go/pkg/kfake"
-	"github.com/twmb/franz-go/pkg/kgo"
-	"github.com/twmb/franz-go/pkg/kversion"
-
+	"verif/checks/c10/escen"
 	"verif/lib/explore"
-	"verif/lib/netctl"
 	"verif/lib/nrun"
-	"verif/lib/nscen"
 )
-
-// Scenario family ETL (DESIGN.md §4 C10): input topic "in" (2 partitions x 4
-// records, values "p<partition>-<n>"), output topic "out" (1 partition), two
-// controlled GroupTransactSession members A and B of group g. Each member
-// loops: PollRecords(2) -> Begin -> Produce one output record per input record
-// (value = input identity) -> Flush -> End(TryCommit, or TryAbort if a produce
-// failed). B joins after A's first End; A closes after its iterations.
-// Afterwards an uncontrolled member of the same group drains what is left and
-// the read_committed view of "out" must hold every input identity exactly once.
-
-const (
-	nParts    = 2
-	perPart   = 4
-	pollMax   = 2
-	itersA    = 3
-	itersB    = 3
-	group     = "g"
-	inTopic   = "in"
-	outTopic  = "out"
-	txTimeout = 20 * time.Second
-)
-
-type variant struct {
-	name string
-	coop bool
-	tv1  bool
-}
-
-type endRes struct {
-	member    string
-	ids       []string
-	commit    bool // what the application asked for
-	committed bool
-	err       error
-}
-
-type state struct {
-	mu        sync.Mutex
-	c         *kfake.Cluster
-	v         variant
-	sess      map[string]*kgo.GroupTransactSession
-	closed    map[string]bool
-	threads   []*netctl.Thread
-	ends      []endRes
-	aFirstEnd chan struct{}
-	aOnce     sync.Once
-}
-
-func tv1Versions() *kversion.Versions {
-	v := kversion.Stable()
-	v.SetMaxKeyVersion(0, 11) // Produce < v12: explicit AddPartitionsToTxn, no transaction.version feature
-	v.SetMaxKeyVersion(24, 3)
-	v.SetMaxKeyVersion(26, 4) // EndTxn < v5
-	v.SetMaxKeyVersion(28, 4) // TxnOffsetCommit < v5: explicit AddOffsetsToTxn
-	return v
-}
-
-func sessionOpts(st *state, name string) []kgo.Opt {
-	bal := kgo.RangeBalancer()
-	if st.v.coop {
-		bal = kgo.CooperativeStickyBalancer()
-	}
-	return []kgo.Opt{
-		kgo.ConsumerGroup(group),
-		kgo.ConsumeTopics(inTopic),
-		kgo.ConsumeResetOffset(kgo.NewOffset().AtStart()),
-		kgo.TransactionalID("tx-" + name),
-		kgo.TransactionTimeout(txTimeout),
-		kgo.RequireStableFetchOffsets(),
-		kgo.FetchIsolationLevel(kgo.ReadCommitted()),
-		kgo.Balancers(bal),
-		kgo.SessionTimeout(2 * time.Minute),
-		kgo.RebalanceTimeout(30 * time.Second),
-		kgo.HeartbeatInterval(time.Second),
-		kgo.FetchMaxWait(time.Second),
-		kgo.RecordPartitioner(kgo.ManualPartitioner()),
-		kgo.ProducerLinger(0),
-		kgo.ProduceRequestTimeout(5 * time.Second),
-	}
-}
-
-func newControlled(x *netctl.Exec, st *state, name string) *kgo.GroupTransactSession {
-	s, err := kgo.NewGroupTransactSession(append(nscen.BaseOpts(x, name, st.c), sessionOpts(st, name)...)...)
-	if err != nil {
-		panic(fmt.Sprintf("NewGroupTransactSession(%s): %v", name, err))
-	}
-	st.mu.Lock()
-	st.sess[name] = s
-	st.mu.Unlock()
-	return s
-}
-
-func closeSession(st *state, name string) {
-	st.mu.Lock()
-	s, done := st.sess[name], st.closed[name]
-	st.closed[name] = true
-	st.mu.Unlock()
-	if s != nil && !done {
-		s.Close()
-	}
-}
-
-// iterate runs one poll/transform/produce/End round; it reports the number
-// of input records handled.
-func iterate(st *state, name string, s *kgo.GroupTransactSession, step func(string)) int {
-	step("poll")
-	ctx, cancel := context.WithTimeout(context.Background(), 2*time.Second)
-	fs := s.PollRecords(ctx, pollMax)
-	cancel()
-	var recs []*kgo.Record
-	fs.EachRecord(func(r *kgo.Record) { recs = append(recs, r) })
-	if len(recs) == 0 {
-		return 0
-	}
-	step("begin")
-	if err := s.Begin(); err != nil {
-		st.mu.Lock()
-		st.ends = append(st.ends, endRes{member: name, err: fmt.Errorf("begin: %w", err)})
-		st.mu.Unlock()
-		return 0
-	}
-	var pmu sync.Mutex
-	var perr error
-	res := endRes{member: name}
-	for _, r := range recs {
-		id := string(r.Value)
-		res.ids = append(res.ids, id)
-		step("produce")
-		s.Produce(context.Background(), &kgo.Record{Topic: outTopic, Partition: 0, Value: []byte(id)}, func(_ *kgo.Record, err error) {
-			pmu.Lock()
-			if err != nil && perr == nil {
-				perr = err
-			}
-			pmu.Unlock()
-		})
-	}
-	step("flush")
-	fctx, fcancel := context.WithTimeout(context.Background(), 60*time.Second)
-	ferr := s.Client().Flush(fctx)
-	fcancel()
-	pmu.Lock()
-	res.commit = ferr == nil && perr == nil
-	pmu.Unlock()
-	step("end")
-	ectx, ecancel := context.WithTimeout(context.Background(), 90*time.Second)
-	res.committed, res.err = s.End(ectx, kgo.TransactionEndTry(res.commit))
-	ecancel()
-	st.mu.Lock()
-	st.ends = append(st.ends, res)
-	st.mu.Unlock()
-	return len(recs)
-}
-
-func faults(x *netctl.Exec, dir string, key int16, c *netctl.Conn) []string {
-	if dir == "resp" {
-		switch key {
-		case 0, 24, 25, 28, 26:
-			return []string{"killafter"}
-		}
-		return nil
-	}
-	switch key {
-	case 0:
-		return []string{"killbefore"}
-	case 24, 25, 28, 26:
-		return []string{"killbefore", "err:51", "err:14"}
-	}
-	return nil
-}
-
-func scenario(v variant) *netctl.Scenario {
-	return &netctl.Scenario{
-		Name:      v.name,
-		Faults:    faults,
-		Horizon:   5 * time.Minute,
-		MaxPoints: 1200,
-		Setup: func(x *netctl.Exec) {
-			opts := []kfake.Opt{kfake.SeedTopics(nParts, inTopic), kfake.SeedTopics(1, outTopic)}
-			if v.tv1 {
-				opts = append(opts, kfake.MaxVersions(tv1Versions()))
-			}
-			c := x.Cluster(1, opts...)
-			st := &state{c: c, v: v, sess: map[string]*kgo.GroupTransactSession{}, closed: map[string]bool{}, aFirstEnd: make(chan struct{})}
-			x.Data = st
-			// Pre-load the input.
-			h := nscen.Helper(x, c, kgo.RecordPartitioner(kgo.ManualPartitioner()))
-			var in []*kgo.Record
-			for p := 0; p < nParts; p++ {
-				for n := 0; n < perPart; n++ {
-					in = append(in, &kgo.Record{Topic: inTopic, Partition: int32(p), Value: []byte(fmt.Sprintf("p%d-%d", p, n))})
-				}
-			}
-			if err := h.ProduceSync(context.Background(), in...).FirstErr(); err != nil {
-				panic(fmt.Sprintf("preload: %v", err))
-			}
-			h.Close()
-			x.OnCleanup(func() {
-				closeSession(st, "A")
-				closeSession(st, "B")
-			})
-			a := newControlled(x, st, "A")
-			st.threads = append(st.threads, x.Thread("A", func(t *netctl.Thread) {
-				for i := 0; i < itersA; i++ {
-					iterate(st, "A", a, t.Step)
-					st.aOnce.Do(func() { close(st.aFirstEnd) })
-				}
-				t.Step("close")
-				closeSession(st, "A")
-			}))
-			st.threads = append(st.threads, x.Thread("B", func(t *netctl.Thread) {
-				<-st.aFirstEnd
-				t.Step("join")
-				b := newControlled(x, st, "B")
-				for i := 0; i < itersB; i++ {
-					iterate(st, "B", b, t.Step)
-				}
-			}))
-		},
-		Final: final,
-	}
-}
-
-func committedOffsets(adm *kadm.Client) (map[int32]int64, error) {
-	ctx, cancel := context.WithTimeout(context.Background(), 20*time.Second)
-	defer cancel()
-	os, err := adm.FetchOffsets(ctx, group)
-	if err != nil {
-		return nil, err
-	}
-	out := map[int32]int64{}
-	for p := int32(0); p < nParts; p++ {
-		if o, ok := os.Lookup(inTopic, p); ok && o.Err == nil {
-			out[p] = o.At
-		} else {
-			out[p] = -1
-		}
-	}
-	return out, nil
-}
-
-func final(x *netctl.Exec) {
-	st := x.Data.(*state)
-	// Pass-through: let the controlled members finish their bounded loops.
-	deadline := time.Now().Add(15 * time.Minute)
-	allDone := func() bool {
-		for _, t := range st.threads {
-			if !t.Done() {
-				return false
-			}
-		}
-		return true
-	}
-	for !allDone() && time.Now().Before(deadline) {
-		time.Sleep(200 * time.Millisecond)
-	}
-	appDone := allDone()
-	if appDone {
-		closeSession(st, "A")
-		closeSession(st, "B")
-	}
-	// Drain what is left with a fresh, uncontrolled member of the same group.
-	base := []kgo.Opt{
-		kgo.SeedBrokers(st.c.ListenAddrs()...),
-		kgo.Dialer(x.DirectDial),
-		kgo.ClientID("H"),
-		kgo.MetadataMinAge(100 * time.Millisecond),
-		kgo.RetryBackoffFn(func(int) time.Duration { return 10 * time.Millisecond }),
-		kgo.DisableClientMetrics(),
-	}
-	h, err := kgo.NewGroupTransactSession(append(base, sessionOpts(st, "H")...)...)
-	if err != nil {
-		x.Violate("harness:helper", "helper session: %v", err)
-		return
-	}
-	plain := nscen.Helper(x, st.c)
-	adm := kadm.NewClient(plain)
-	finished := false
-	var lastOffsets map[int32]int64
-	var helperErrs []string
-	drainDeadline := time.Now().Add(4 * time.Minute)
-	for time.Now().Before(drainDeadline) {
-		n := iterate(st, "H", h, func(string) {})
-		if n > 0 {
-			continue
-		}
-		offs, err := committedOffsets(adm)
-		if err != nil {
-			helperErrs = append(helperErrs, err.Error())
-			continue
-		}
-		lastOffsets = offs
-		finished = true
-		for p := int32(0); p < nParts; p++ {
-			if offs[p] != perPart {
-				finished = false
-			}
-		}
-		if finished {
-			break
-		}
-	}
-	h.Close()
-	plain.Close()
-
-	// read_committed view of the output.
-	read := func() (visible, open []nscen.LogRecord) {
-		return nscen.Committed(nscen.ReadRaw(x, st.c, outTopic, 0))
-	}
-	visible, open := read()
-	for waited := 0; len(open) > 0 && waited < 12; waited++ {
-		time.Sleep(5 * time.Second)
-		visible, open = read()
-	}
-	count := map[string]int{}
-	for _, r := range visible {
-		count[r.Value]++
-	}
-	st.mu.Lock()
-	defer st.mu.Unlock()
-	var lost, dup []string
-	for p := 0; p < nParts; p++ {
-		for n := 0; n < perPart; n++ {
-			id := fmt.Sprintf("p%d-%d", p, n)
-			switch c := count[id]; {
-			case c == 0:
-				lost = append(lost, id)
-			case c > 1:
-				dup = append(dup, fmt.Sprintf("%sx%d", id, c))
-			}
-			delete(count, id)
-		}
-	}
-	for v := range count {
-		x.Violate("harness:unknown-output", "unexpected output record %q", v)
-	}
-	hist := history(st)
-	if len(dup) > 0 {
-		x.Violate("duplicate-output", "read_committed view of %s holds %v more than once; ends: %s", outTopic, dup, hist)
-	}
-	switch {
-	case len(lost) > 0 && finished:
-		x.Violate("lost-output", "group offsets are at the end of the input (%v) but the read_committed view of %s lacks %v; ends: %s", lastOffsets, outTopic, lost, hist)
-	case !finished:
-		x.Violate("not-finished", "a fresh member did not bring the group to the end of the input within 4 virtual minutes after the controlled members stopped (offsets %v, missing %v, controlled threads done=%v, helper errors %v); ends: %s", lastOffsets, lost, appDone, helperErrs, hist)
-	}
-	if len(open) > 0 {
-		x.Count("open_after_timeout", 1)
-	}
-	obs := outcome(st)
-	if !appDone {
-		obs += " APP-NOT-DONE"
-	}
-	x.Observe("%s", obs)
-	if os.Getenv("VERIF_OBSLOG") != "" {
-		fmt.Fprintf(os.Stderr, "OBS %s\n", obs)
-	}
-}
-
-func errClass(err error) string {
-	if err == nil {
-		return "nil"
-	}
-	return nscen.ErrClass(err)
-}
-
-// history is the full list of End results in order (for violation texts).
-func history(st *state) string {
-	var s []string
-	for _, e := range st.ends {
-		s = append(s, fmt.Sprintf("%s%v want=%v committed=%v err=%s", e.member, e.ids, e.commit, e.committed, errClass(e.err)))
-	}
-	return strings.Join(s, "; ")
-}
-
-// outcome is the canonical terminal observation: per controlled member the
-// sequence of End results with the input identities it covered, plus which
-// identities were left to the helper.
-func outcome(st *state) string {
-	per := map[string][]string{}
-	for _, e := range st.ends {
-		if e.member == "H" {
-			continue
-		}
-		r := "abort"
-		switch {
-		case e.err != nil:
-			r = "err:" + errClass(e.err)
-		case e.committed:
-			r = "commit"
-		}
-		per[e.member] = append(per[e.member], fmt.Sprintf("%s=%s", strings.Join(e.ids, "+"), r))
-	}
-	var names []string
-	for n := range per {
-		names = append(names, n)
-	}
-	sort.Strings(names)
-	var s []string
-	for _, n := range names {
-		s = append(s, n+":["+strings.Join(per[n], " ")+"]")
-	}
-	return strings.Join(s, " ")
-}
-
-// endWindow restricts a deviation to the End windows of the transactions: the
-// frames of AddOffsetsToTxn / TxnOffsetCommit / EndTxn and of the group
-// protocol (Heartbeat / JoinGroup / SyncGroup / OffsetFetch), and the
-// application steps.
-func endWindow(label string) bool {
-	if label == "tick" || strings.HasPrefix(label, "app:") {
-		return true
-	}
-	for _, k := range []string{":AddOffsetsToTxn", ":TxnOffsetCommit", ":EndTxn", ":Heartbeat", ":JoinGroup", ":SyncGroup", ":OffsetFetch", ":LeaveGroup"} {
-		if strings.HasSuffix(label, k) {
-			return true
-		}
-	}
-	return false
-}
-
-func allowEndWindows(fromCost int) func(parent explore.Job, point int, label string, cost int) bool {
-	return func(parent explore.Job, point int, label string, cost int) bool {
-		if cost < fromCost {
-			return true
-		}
-		if !endWindow(label) {
-			return false
-		}
-		for _, k := range parent.Kinds {
-			if !endWindow(k) {
-				return false
-			}
-		}
-		return true
-	}
-}
-
-var plans = []nrun.Plan{
-	{Scenario: scenario(variant{name: "ETL-coop", coop: true}), QuickBudget: 1, ThoroughBudget: 2, Weight: 1, Allow: allowByTier()},
-	{Scenario: scenario(variant{name: "ETL-eager"}), QuickBudget: 1, ThoroughBudget: 2, Weight: 1, Allow: allowByTier()},
-	{Scenario: scenario(variant{name: "ETL-coop-tv1", coop: true, tv1: true}), QuickBudget: 1, ThoroughBudget: 2, Weight: 1, Allow: allowByTier()},
-}
-
-// allowByTier: quick = k=1 restricted to End windows; thorough = full k=1,
-// k=2 restricted to End windows.
-func allowByTier() func(parent explore.Job, point int, label string, cost int) bool {
-	if os.Getenv("VERIF_TIER") == "thorough" {
-		return allowEndWindows(2)
-	}
-	return allowEndWindows(quickFrom)
-}
-
-// quickFrom is the deviation count from which the quick tier restricts
-// deviations to End windows (1 = all of them).
-const quickFrom = 2
 
 func TestC10(t *testing.T) {
 	if explore.IsWorker() {
-		serveWorker(t, plans)
+		// same protocol as nrun's worker loop, more tolerant of unowned nondeterminism (see escen.ServeWorker)
+		escen.ServeWorker(t, escen.Plans())
 		return
 	}
 	nrun.Main(t, &nrun.Check{
-		ID: "C10", TestName: "TestC10", Plans: plans,
-		QuickTime: 110 * time.Second, ThorTime: 18 * time.Minute,
-		Rule:   "engine N: consume-transform-produce pipeline with two controlled GroupTransactSession members (A from the start, B joining after A's first End, A closing after 3 rounds) over 2x4 input records; every order of application calls (PollRecords/Begin/Produce/Flush/End/Close), frame deliveries, timer ticks and injected faults (connection kill before/after handling on Produce, AddPartitionsToTxn, AddOffsetsToTxn, TxnOffsetCommit, EndTxn; CONCURRENT_TRANSACTIONS and COORDINATOR_LOAD_IN_PROGRESS on the transactional requests) within k deviations of the default order, for cooperative-sticky and range (eager) balancing on a KIP-890p2 broker and cooperative-sticky on a TV1 broker. Quick tier: k=1 with deviations restricted to the End windows (application steps, tick, frames of AddOffsetsToTxn/TxnOffsetCommit/EndTxn/Heartbeat/JoinGroup/SyncGroup/OffsetFetch/LeaveGroup and their faults). Thorough tier: k=1 unrestricted, k=2 restricted to End windows, time-capped. distinct = distinct terminal outcomes (per member sequence of End results with the input identities covered)",
+		ID: "C10", TestName: "TestC10", Plans: escen.Plans(),
+		QuickTime: 120 * time.Second, ThorTime: 18 * time.Minute,
+		Rule:   "engine N: consume-transform-produce pipeline with two controlled GroupTransactSession members (A from the start, B joining after A's first (eager) or second (cooperative) round so that the rebalance lands in A's open transaction, A closing after 4 rounds; each round = PollRecords(2), Begin, one output per input, 1.37 s processing time, Flush, End) over 2x4 input records; every order of application calls (PollRecords/Begin/Produce/Flush/End/Close), frame deliveries, timer ticks and injected faults (connection kill before/after handling on Produce, AddPartitionsToTxn, AddOffsetsToTxn, TxnOffsetCommit, EndTxn; CONCURRENT_TRANSACTIONS and COORDINATOR_LOAD_IN_PROGRESS on the transactional requests) within k deviations of the default order, for cooperative-sticky and range (eager) balancing on a KIP-890p2 broker and cooperative-sticky on a TV1 broker. Quick tier: all single deviations (k=1, unrestricted). Thorough tier: k=1 unrestricted, k=2 restricted to End windows (both deviations among: application steps, tick, frames of AddOffsetsToTxn/TxnOffsetCommit/EndTxn/Heartbeat/JoinGroup/SyncGroup/OffsetFetch/LeaveGroup and their faults), time-capped. distinct = distinct terminal outcomes (per member sequence of End results with the input identities covered)",
 		Assume: []string{"kfake is the broker", "an uncontrolled GroupTransactSession member of the same group drains the remaining input after the explored phase", "read_committed view computed from the raw log of the output partition", "default RequestRetries (an End whose EndTxn outcome is unconfirmed after 20 retries is outside the explored space)", "synctests build of xsync", "goroutine micro-interleavings inside one event are the Go runtime's"},
 	})
 }
